@@ -61,11 +61,15 @@ pub fn run(o: &Opts, deck: &str) -> String {
     out.directive(&format!("@deck {}", deck));
     let mut rng = Rng::new(o.seed, 6);
     // ---- HandIterator: k in 0..=7 x masks (empty, small, dense, top-heavy, complement-of-few)
-    for k in 0..=7usize {
+    // the iterator scans all C(52,k) bit patterns whatever the mask: the model replays k <= 5 in full;
+    // for k = 6, 7 the masks leave <= 28 free cards and the case is judged by the specification only
+    let kmax_full = if o.thorough() { 5 } else { 4 };
+    for k in 0..=kmax_full {
         out.line(&hands_line(k, 0));
         out.line(&hands_line(k, 0xF));
     }
-    let nm = if o.thorough() { 4000 } else { 500 };
+    let nm = if o.thorough() { 4000 } else { 200 };
+    let cap: u128 = if o.thorough() { 3_000_000 } else { 60_000 };
     for i in 0..nm {
         let k = (i % 8) as usize;
         let blocked = match i % 5 {
@@ -86,8 +90,11 @@ pub fn run(o: &Opts, deck: &str) -> String {
         for j in 0..k as u64 {
             c = c * (free.saturating_sub(j)) as u128 / (j + 1) as u128;
         }
-        let skips_bounded = k <= 3 || (mask.count_ones() <= 30);
-        if c <= 3_000_000 && skips_bounded {
+        let keep: u64 = if o.thorough() { 28 } else { 20 };
+        let mask = if k >= 6 && free > keep { mask | rng.cards((free - keep) as usize, DECK_MASK & !mask) } else { mask };
+        let c = if k >= 6 { c.min(cap) } else { c };
+        // quick tier: the k = 5 scan (2.6M patterns in the model) only for one mask in eight
+        if c <= cap && (o.thorough() || k != 5 || i % 64 == 5) {
             out.line(&hands_line(k, mask));
         }
     }
@@ -153,7 +160,7 @@ pub fn run(o: &Opts, deck: &str) -> String {
         out.line(&format!("isoit {} | {}", s as isize, r2.unwrap_or("P".into())));
     }
     // ---- children of observations
-    let nc = if o.thorough() { 3000 } else { 300 };
+    let nc = if o.thorough() { 3000 } else { 150 };
     for i in 0..nc {
         let k = [0usize, 3, 4][i % 3];
         let pk = rng.cards(2, DECK_MASK);
